@@ -71,8 +71,10 @@ type PayloadOpts struct {
 	UnknownPerTen  int // chance that an unknown field is injected
 	IllRelPerTen   int // chance that a relationship's data has the wrong shape
 	AllFieldsOften bool
-	Canonical      bool // attribute literals are what encoding/json writes for a generated value
-	OddIdentPerTen int  // chance that an identifier of a linkage names another type than the target, or none
+	Canonical      bool     // attribute literals are what encoding/json writes for a generated value
+	OddIdentPerTen int      // chance that an identifier of a linkage names another type than the target, or none
+	ForeignTypes   []string // names of known types that an identifier may bear instead of the target's
+	ForeignPerTen  int      // chance of that, per identifier
 }
 
 // ResourcePayload draws the JSON text of a resource object for the type, with
@@ -99,6 +101,10 @@ func ResourcePayload(t *rapid.T, ts *TypeSpec, o PayloadOpts) *PayloadCase {
 	// and then one names something else, or nothing (the statement of no
 	// property says what must happen then, only that the entry points agree).
 	identJSON := func(typ, id string) string {
+		if len(o.ForeignTypes) > 0 && rapid.IntRange(0, 9).Draw(t, "foreignident") < o.ForeignPerTen {
+			return identJSON(rapid.SampledFrom(o.ForeignTypes).Draw(t, "foreignident-type"), id)
+		}
+
 		if o.OddIdentPerTen == 0 || rapid.IntRange(0, 9).Draw(t, "oddident") >= o.OddIdentPerTen {
 			return identJSON(typ, id)
 		}
